@@ -32,9 +32,13 @@ def _zread(what, n, total, before, pos, c, u, a, tape):
         s._compressed_stream._pos = c + u
         k = a if a >= 0 else n - pos
         k = min(k, max(0, n - pos))
+        old = p - pos
         got = s.read(a)
         if what == 'reach':
             return not (u == 524288 and k > 0 and len(got) == k)
+        # C18 (chunked I/O): what stays buffered after read(a) is bounded by the request, not by the object
+        if a > 0 and len(s._internal_buffer) > max(old - a, a - 1):
+            return False
         return (got == content[pos : pos + k]) and s.tell() == pos + k
     except Vacuous:
         return True
@@ -74,3 +78,84 @@ def zread_reach(n: int, total: int, before: int, pos: int, c: int, u: int, a: in
     post: _
     """
     return _zread('reach', n, total, before, pos, c, u, a, tape)
+
+
+def _zseek(what, n, total, before, pos, c, u, t, whence, a, tape):
+    """one seek(t, whence) of the streaming decompresser (no loose cache) from an arbitrary symbolic stream state,
+    then read(a): position, returned value and bytes must be those of an in-memory file over the object."""
+    content = Seg([(('obj', 0, n), 0, n)])
+    z = ZTok(content, total)
+    if c + u > total or pos > n:
+        return True
+    tp = Tape(tape)
+    NDDecompressObj.tape = tp
+    try:
+        p = tp.draw(pos, n)
+        if c == 0 and p != 0:
+            return True
+        if c == total and (p != n or u):
+            return True
+        pack = MemStream(Seg([(('junk', 0), 0, before)]) + Seg([(z, 0, total)]) + Seg([(('junk', 1), 0, 1)]))
+        s = NDDecompresser(PackedObjectReader(pack, before, total))
+        d = s._decompressor
+        d.z = z if c > 0 else None
+        d.c, d.p, d.eof = c, p, (c == total)
+        d.unconsumed_tail = Seg([(z, c, c + u)]) if c < total else EMPTY
+        s._pos = pos
+        s._internal_buffer = content[pos:p]
+        pack.pos = before + c + u
+        s._compressed_stream._pos = c + u
+        target = t if whence == 0 else pos + t
+        try:
+            r = s.seek(t, whence)
+        except ValueError:
+            # rejected: only negative targets may be, and the position must be untouched
+            return target < 0 and s.tell() == pos
+        if target < 0:
+            return False
+        want = min(target, n)  # beyond the end: clamped
+        if what == 'reach':
+            return not (target < pos and target > 0 and p > pos)
+        if r != want or s.tell() != want:
+            return False
+        k = min(a, n - want)
+        got = s.read(a)
+        return (got == content[want : want + k]) and s.tell() == want + k
+    except Vacuous:
+        return True
+
+
+def zseek_abs(n: int, total: int, before: int, pos: int, c: int, u: int, t: int, a: int, tape: List[int]) -> bool:
+    """
+    seek(t, 0) backwards or forwards, then read(a).
+    pre: 0 <= n <= 400000 and 2 <= total <= 2000000 and 0 <= before <= 2
+    pre: 0 <= pos and 0 <= c and 0 <= u <= 524288
+    pre: -2 <= t <= 400010 and 0 <= a <= 300000
+    pre: len(tape) <= 9
+    post: _
+    """
+    return _zseek('check', n, total, before, pos, c, u, t, 0, a, tape)
+
+
+def zseek_rel(n: int, total: int, before: int, pos: int, c: int, u: int, t: int, a: int, tape: List[int]) -> bool:
+    """
+    seek(t, 1), then read(a).
+    pre: 0 <= n <= 400000 and 2 <= total <= 2000000 and 0 <= before <= 2
+    pre: 0 <= pos and 0 <= c and 0 <= u <= 524288
+    pre: -400010 <= t <= 400010 and 0 <= a <= 300000
+    pre: len(tape) <= 9
+    post: _
+    """
+    return _zseek('check', n, total, before, pos, c, u, t, 1, a, tape)
+
+
+def zseek_reach(n: int, total: int, before: int, pos: int, c: int, u: int, t: int, a: int, tape: List[int]) -> bool:
+    """
+    Reachability twin: must be REFUTED (a backward seek to a non-zero target from a state with buffered bytes succeeds).
+    pre: 0 <= n <= 400000 and 2 <= total <= 2000000 and 0 <= before <= 2
+    pre: 0 <= pos and 0 <= c and 0 <= u <= 524288
+    pre: -2 <= t <= 400010 and 0 <= a <= 300000
+    pre: len(tape) <= 9
+    post: _
+    """
+    return _zseek('reach', n, total, before, pos, c, u, t, 0, a, tape)
